@@ -5,19 +5,20 @@ from contracts import contract
 N = 'child.name'
 
 
+def removed_first_of(lst_now, lst_old, who):
+    """clause: the reference list `lst_now` (current state) equals `lst_old` (an old(...) expression denoting the
+    same list object in the pre-state) with the FIRST occurrence of `who` removed; unchanged if `who` is absent"""
+    fp = 'old(first_pos(%s, %s))' % (lst_old[4:-1] if lst_old.startswith('old(') else lst_old, who)
+    return ('(({fp} == -1 and list_len({now}) == old(list_len({old})) and '
+            'all(list_at({now}, k) is old(list_at({old}, k)) for k in range(old(list_len({old}))))) or '
+            '({fp} >= 0 and list_len({now}) == old(list_len({old})) - 1 and '
+            'all(list_at({now}, k) is old(list_at({old}, k)) for k in range({fp})) and '
+            'all(list_at({now}, k) is old(list_at({old}, k + 1)) for k in range({fp}, old(list_len({old})) - 1))))'
+            .format(fp=fp, now=lst_now, old=(lst_old[4:-1] if lst_old.startswith('old(') else lst_old)))
+
+
 def removed_first(item, length, who):
-    """clause: the sequence (item(k), length) equals the old one with the FIRST occurrence of `who` removed,
-    or is unchanged when `who` does not occur"""
-    old_len = 'old(%s)' % length
-    occurs_at_p = ('old({item_p}) is {who} and all(old({item_k}) is not {who} for k in range(p)) and '
-                   '{length} == {old_len} - 1 and '
-                   'all({item_k} is old({item_k}) for k in range(p)) and '
-                   'all({item_k} is old({item_k1}) for k in range(p, {old_len} - 1))').format(
-        item_p=item('p'), item_k=item('k'), item_k1=item('k + 1'), who=who, length=length, old_len=old_len)
-    absent = ('all(old({item_k}) is not {who} for k in range({old_len})) and {length} == {old_len} and '
-              'all({item_k} is old({item_k}) for k in range({old_len}))').format(
-        item_k=item('k'), who=who, length=length, old_len=old_len)
-    return '(any(%s for p in range(%s))) or (%s)' % (occurs_at_p, old_len, absent)
+    raise RuntimeError('use removed_first_of')
 
 
 def idx_item(i):
@@ -37,7 +38,7 @@ contract(
     sig={'self': 'ElementList', 'child': 'Element'},
     returns='none',
     ensures=[
-        ('byname_minus_child', removed_first(idx_item, 'idx_len(self, child.name)', 'child')),
+        ('byname_minus_child', removed_first_of('old(idx_list(self, child.name))', 'old(idx_list(self, child.name))', 'child')),
         ('keys_unchanged', 'idx_has(self, child.name) == old(idx_has(self, child.name)) and '
                            'idx_list(self, child.name) is old(idx_list(self, child.name))'),
     ],
@@ -57,8 +58,7 @@ contract(
     ensures=[
         # the traversal list of that name loses the first occurrence of child; an emptied list loses its key
         ('tlist_minus_child',
-         'implies(old(tidx_has(self, child.name)), ' + removed_first(
-             lambda i: 'tidx_item_of(%s, %s)' % (TL, i), 'list_len_of(%s)' % TL, 'child') + ')'),
+         'implies(old(tidx_has(self, child.name)), ' + removed_first_of(TL, TL, 'child') + ')'),
         ('key_kept_if_nonempty',
          'implies(old(tidx_has(self, child.name)) and list_len_of(%s) > 0, '
          'tidx_has(self, child.name) and tidx_list(self, child.name) is %s)' % (TL, TL)),
@@ -145,14 +145,13 @@ contract(
         ('traversal_child',
          'implies(old(child._traversal_parent) is self.element, '
          'list_unchanged(self.list) and dict_unchanged(self.indexes) and '
-         'implies(old(tidx_has(self, child.name)), ' + removed_first(
-             lambda i: 'tidx_item_of(%s, %s)' % (TL, i), 'list_len_of(%s)' % TL, 'child') + '))'),
+         'implies(old(tidx_has(self, child.name)), ' + removed_first_of(TL, TL, 'child') + '))'),
         ('real_child_list',
          'implies(old(child._traversal_parent) is not self.element, ' +
-         removed_first(list_item, 'len(self.list)', 'child') + ')'),
+         removed_first_of('self.list', 'self.list', 'child') + ')'),
         ('real_child_byname',
          'implies(old(child._traversal_parent) is not self.element, ' +
-         removed_first(idx_item, 'idx_len(self, child.name)', 'child') + ')'),
+         removed_first_of('old(idx_list(self, child.name))', 'old(idx_list(self, child.name))', 'child') + ')'),
         ('real_child_rest',
          'implies(old(child._traversal_parent) is not self.element, dict_unchanged(self.indexes) and '
          'dict_unchanged(self.traversal_indexes))'),
@@ -191,7 +190,7 @@ contract(
          'all(self.list[k] is old(self.list[k]) for k in range(index if index >= 0 else index + old(len(self.list)))) and '
          'all(self.list[k] is old(self.list[k + 1]) for k in range(index if index >= 0 else index + old(len(self.list)), len(self.list)))'),
         ('byname_minus_that_child',
-         removed_first(lambda i: 'idx_item(self, victim.name, %s)' % i, 'idx_len(self, victim.name)', 'victim')
+         removed_first_of('old(idx_list(self, victim.name))', 'old(idx_list(self, victim.name))', 'victim')
          .replace('victim', 'old(self.list[index if index >= 0 else index + len(self.list)])')),
     ],
     raises={'IndexError': {'when': 'index >= len(self.list) or index < -len(self.list)',
@@ -224,9 +223,8 @@ def real_attach(S, C):
         ('byname_object_fresh', 'implies(not old(idx_has({S}, {C}.name)), is_fresh(idx_list({S}, {C}.name)))'
          .format(S=S, C=C)),
         ('left_traversal_index',
-         'implies(old(tidx_has({S}, {C}.name)), '.format(S=S, C=C) + removed_first(
-             lambda i: 'tidx_item_of(old(tidx_list(%s, %s.name)), %s)' % (S, C, i),
-             'list_len_of(old(tidx_list(%s, %s.name)))' % (S, C), C) + ')'),
+         'implies(old(tidx_has({S}, {C}.name)), '.format(S=S, C=C) + removed_first_of(
+             'old(tidx_list(%s, %s.name))' % (S, C), 'old(tidx_list(%s, %s.name))' % (S, C), C) + ')'),
         ('traversal_key', 'implies(tidx_has({S}, {C}.name), old(tidx_has({S}, {C}.name)) and '
                           'tidx_list({S}, {C}.name) is old(tidx_list({S}, {C}.name)))'.format(S=S, C=C)),
         ('other_traversal_kept', 'dict_same_except(%s.traversal_indexes, %s.name)' % (S, C)),
@@ -331,11 +329,12 @@ contract(
 
 
 def inserted(seq_item, seq_len, pos, what):
-    """clause: sequence == old[:pos] ++ [what] ++ old[pos:]"""
+    """clause: sequence == old[:pos] ++ [what] ++ old[pos:]   (new side indexed by the bound variable itself:
+    quantifier triggers then match plain selects)"""
     return ('{ln} == old({ln}) + 1 and {at} is {what} and '
             'all({item_k} is old({item_k}) for k in range({pos})) and '
-            'all({item_k1} is old({item_k}) for k in range({pos}, old({ln})))'
-            .format(ln=seq_len, at=seq_item(pos), item_k=seq_item('k'), item_k1=seq_item('k + 1'), pos=pos, what=what))
+            'all({item_k} is old({item_km1}) for k in range({pos} + 1, old({ln}) + 1))'
+            .format(ln=seq_len, at=seq_item(pos), item_k=seq_item('k'), item_km1=seq_item('k - 1'), pos=pos, what=what))
 
 
 # C09: insert puts the child at `index` of the child list and at `by_name_index` of its by-name list (end for -1)
@@ -357,11 +356,64 @@ contract(
         ('byname_position', 'idx_has(self, child.name) and ' +
          inserted(idx_item, 'idx_len(self, child.name)', INS_BN, 'child')),
         ('other_names_kept', 'dict_same_except(self.indexes, child.name)'),
+        ('byname_object_kept', 'implies(old(idx_has(self, child.name)), idx_list(self, child.name) is old(idx_list(self, child.name)))'),
+        ('byname_object_fresh', 'implies(not old(idx_has(self, child.name)), is_fresh(idx_list(self, child.name)))'),
         ('linked', 'child._parent is self.element'),
         ('sep', 'sep(self)'),
     ],
     raises=ATTACH_RAISES,
     modifies=ATTACH_MODIFIES,
+    allocates=['La.R', 'Ll'],
+    properties=['C09', 'C10', 'C12'],
+)
+
+
+def replaced_first_of(lst, old, new):
+    """clause: the reference list `lst` (same object before and after) has the same length; the FIRST occurrence of
+    `old` is now `new`; every other position is unchanged"""
+    fp = 'old(first_pos(%s, %s))' % (lst, old)
+    return ('{fp} >= 0 and list_len({l}) == old(list_len({l})) and list_at({l}, {fp}) is {new} and '
+            'all(list_at({l}, k) is old(list_at({l}, k)) for k in range({fp})) and '
+            'all(list_at({l}, k) is old(list_at({l}, k)) for k in range({fp} + 1, list_len({l})))'
+            .format(fp=fp, l=lst, new=new))
+
+
+OLD_LISTED = ('any(self.list[k] is old_child for k in range(len(self.list))) and '
+              'any(idx_item(self, old_child.name, k) is old_child for k in range(idx_len(self, old_child.name)))')
+NEW_NOT_LISTED = ('all(self.list[k] is not new_child for k in range(len(self.list))) and '
+                  'all(idx_item(self, new_child.name, k) is not new_child for k in range(idx_len(self, new_child.name)))')
+
+REPLACE_RAISES = {
+    n: {'ensures': [('view_unchanged',
+                     'list_unchanged(self.list) and dict_unchanged(self.indexes) and '
+                     'implies(old(idx_has(self, old_child.name)), list_unchanged(old(idx_list(self, old_child.name))))')]}
+    for n in ('ChildNotValid', 'ChildNotFound', 'MaxChildLimitReached', 'OperationNotAllowed')
+}
+
+contract(
+    'hl7apy.core:ElementList.replace_child',
+    sig={'self': 'ElementList', 'old_child': 'Element', 'new_child': 'Element'},
+    returns='none',
+    requires=['sep(self)', OWNED, 'old_child is not new_child', 'new_child.name == old_child.name',
+              'old_child._traversal_parent is not self.element', OLD_LISTED, NEW_NOT_LISTED,
+              'new_child._parent is self.element or new_child._traversal_parent is not self.element'],
+    ensures=[
+        # C09: replacing a child never changes the order of repetitions or of its siblings
+        ('list_in_place', replaced_first_of('self.list', 'old_child', 'new_child')),
+        ('byname_in_place', 'idx_list(self, old_child.name) is old(idx_list(self, old_child.name)) and ' +
+         replaced_first_of('old(idx_list(self, old_child.name))', 'old_child', 'new_child')
+         .replace('old(first_pos(old(idx_list(self, old_child.name)), old_child))',
+                  'old(first_pos(idx_list(self, old_child.name), old_child))')
+         .replace('old(list_len(old(idx_list(self, old_child.name))))', 'old(idx_len(self, old_child.name))')
+         .replace('old(list_at(old(idx_list(self, old_child.name)), k))', 'old(idx_item(self, old_child.name, k))')),
+        ('other_names_kept', 'dict_same_except(self.indexes, old_child.name)'),
+        ('linked', 'new_child._parent is self.element'),
+        ('sep', 'sep(self)'),
+    ],
+    raises=REPLACE_RAISES,
+    modifies=['self.list[]', 'self.indexes{}', 'idx_list(self, old_child.name)[]', 'self.traversal_indexes{}',
+              'tidx_list(self, old_child.name)[]', 'new_child._parent', 'new_child._traversal_parent',
+              'field Segment._last_child_index'],
     allocates=['La.R', 'Ll'],
     properties=['C09', 'C10', 'C12'],
 )
